@@ -9,6 +9,7 @@ import (
 
 	"github.com/lmorg/murex/debug"
 	"github.com/lmorg/murex/lang/state"
+	"github.com/lmorg/murex/utils/verifhook"
 )
 
 // FID (Function ID) table: ie table of murex `Process` processes
@@ -28,6 +29,7 @@ func newFuncID() *funcID {
 // Register process to assign it a FID (Function ID)
 func (f *funcID) Register(p *Process) (fid uint32) {
 	fid = atomic.AddUint32(&f.latest, 1)
+	verifhook.FidRegistered(fid)
 
 	f.mutex.Lock()
 
